@@ -479,6 +479,11 @@ def compare(case, i, line, ir, mr):
     if ir.startswith('err') or mr.startswith('err'):
         if ir == mr:
             return None
+        if ir.startswith('err') and mr.startswith('err'):
+            # both reject the call (a key column that does not exist, specs of different lengths ..): WHICH exception is raised is not
+            # part of the statement (a non-string key that is no column is a 'formula' for the code - ValueError - and a missing column
+            # for the model - KeyError; found by the thorough tier on the unchanged tree after the non-string keys were generated)
+            return None
         if ir.startswith('err') and mr.startswith('ok'):
             return 'the call raised (%s) where the statement prescribes a table (model: %s)' % (ir, mr[:120])
         return ('divergence', 'implementation %s, model %s' % (ir[:120], mr[:120]))
